@@ -738,6 +738,63 @@ fn c12_oracle(sc: &Scenario, ex: &Execution, info: &mut CaseInfo) -> Vec<Finding
     f
 }
 
+
+// ---- C08 -----------------------------------------------------------------------------------
+
+fn wakeup_strategy(_t: Tier) -> BoxedStrategy<Scenario> {
+    gen::traffic(
+        gen::qcfg(BOTH, FutMode::Never, prop_oneof![3 => Just(1u8), 3 => Just(2u8), 2 => Just(4u8), 1 => Just(3u8)].boxed(), gen::wait_any()),
+        TrafficParams {
+            max_values: 5,
+            max_producers: 2,
+            w_try: 1,
+            w_sendk: 1,
+            leave: 4,
+            gates: true,
+            blocking_only: true,
+            ..TrafficParams::default()
+        },
+        400,
+        conc_opts(),
+    )
+}
+
+fn c08_oracle(sc: &Scenario, ex: &Execution, info: &mut CaseInfo) -> Vec<Finding> {
+    let (_wrap, _overlap) = conc_common(sc, ex, info);
+    let h = Hist::build(sc, ex);
+    // a blocking receive that began before the event it waited for had happened
+    let last_drop = h.senders.values().map(|x| x.2).max().unwrap_or(0);
+    let mut waited = 0u64;
+    for s in h.streams.values() {
+        for d in &s.deliveries {
+            if d.kind.is_blocking_recv() {
+                if let Some(a) = h.acc.get(&d.id) {
+                    if d.t0 < a.t1 {
+                        waited += 1;
+                    }
+                }
+            }
+        }
+        for e in &s.ends {
+            if e.3.is_blocking_recv() && e.0 < last_drop {
+                waited += 1;
+            }
+        }
+    }
+    let leavers = h
+        .streams
+        .values()
+        .flat_map(|s| s.handles.values())
+        .filter(|x| x.1 != u64::MAX && x.1 < last_drop)
+        .count();
+    info.class(format!("blocking_receives_that_waited={}", waited.min(5)));
+    info.class(format!("consumers_that_left_early={}", leavers.min(3)));
+    info.class(format!("max_consumers_per_stream={}", h.max_handles_on_a_stream().min(4)));
+    info.class(format!("gated_producers={}", sc.progs.iter().filter(|p| p.ops.iter().any(|o| matches!(o, Op::WaitDelivered { .. }))).count().min(3)));
+    info.nontrivial = waited > 0;
+    keep(note_stuck(&h, info), &["BlockedReceiver"])
+}
+
 // ---- registry ------------------------------------------------------------------------------
 
 fn cases(quick: u32, thorough: u32) -> impl Fn(Tier) -> u32 {
@@ -825,6 +882,16 @@ pub fn registry() -> Vec<PropDef> {
             }],
             rule: "traffic profile with cloned/dropped senders and every receive entry point; oracle = per end report: no sender alive during the whole call, no accepted value undelivered and not in flight, end stable afterwards; non-trivial = an end report overlaps the last accepted send or the last sender drop",
             assumptions: vec![SC_ASSUME, SAMPLE_ASSUME],
+        },
+        PropDef {
+            id: "C08",
+            parts: vec![Part {
+                name: "wakeup",
+                source: Source::Random { strategy: wakeup_strategy, cases: cases_fn!(2000, 40000) },
+                oracle: c08_oracle,
+            }],
+            rule: "plain handles under every built-in wait strategy (busy, yielding, blocking; zero, small and default spin counts), N in {1,2,4}; consumers only use blocking entry points (recv, recv_view, blocking iterators), some leave after a few values, producers keep their sender alive until one of their values has been delivered; oracle = scheduler stuck state (deadlock, or no value-changing write for 4000 points) with a thread inside a blocking receive while its stream has an accepted undelivered value or every sender is gone; non-trivial = some blocking receive began before the value or hang-up it returned had happened",
+            assumptions: vec![SC_ASSUME, SAMPLE_ASSUME, "fair scheduling: a thread that spins read-only for 40 points lets the others run; a stuck verdict needs 4000 consecutive points without any value-changing write"],
         },
         PropDef {
             id: "C09",
